@@ -82,6 +82,18 @@ CLAIMED = {
               "(hypotheses, sampled). Group flattening after the clip is covered by the rendering judge only."),
         technique="Lean 4 proof (order reasoning, induction on the shape list) + exact Fraction/Rat correspondence + independent renderer search",
         ref="DESIGN.md §4 C19"),
+    "C18": dict(
+        text=("Lean 4 theorems for every combination of the paint fields: might_paint = False implies display:none, or move-only, "
+              "or no visible stroke and (no visible fill or a non-positive computed area); a displayed, drawing shape with a "
+              "visible stroke or a visible fill of positive area is reported True; an engine error keeps the shape; display:none "
+              "decides first. The ladder, style application (parse_css_declarations + field coercion), the area consultation and "
+              "remove_empty_subpaths are modelled and tied to the code with the area answers replayed from the recorded Skia calls; "
+              "verdicts and both removal operations are judged against the independent renderer (a shape reported unable to paint "
+              "must paint nowhere; removals must not change any sampled colour)."),
+        note=("Trusted: Lean kernel; core axioms only; Skia's area (oracle, sampled); harness/render.py. Document-level "
+              "remove_unpainted_shapes is covered by the rendering judge, its tree surgery is modelled under C01."),
+        technique="Lean 4 proof (case analysis of the decision ladder) + replayed-oracle correspondence + renderer-judged search",
+        ref="DESIGN.md §4 C18"),
 }
 
 def main():
